@@ -98,13 +98,13 @@ type statsCache struct {
 	c  cache.Cache
 }
 
-func (s statsCache) Get(b int64) bgzf.Block                 { return s.sr.Get(b) }
-func (s statsCache) Put(b bgzf.Block) (bgzf.Block, bool)    { return s.sr.Put(b) }
-func (s statsCache) Peek(b int64) (bool, int64)             { return s.sr.Peek(b) }
-func (s statsCache) Len() int                               { return s.c.Len() }
-func (s statsCache) Cap() int                               { return s.c.Cap() }
-func (s statsCache) Resize(n int)                           { s.c.Resize(n) }
-func (s statsCache) Drop(n int)                             { s.c.Drop(n) }
+func (s statsCache) Get(b int64) bgzf.Block              { return s.sr.Get(b) }
+func (s statsCache) Put(b bgzf.Block) (bgzf.Block, bool) { return s.sr.Put(b) }
+func (s statsCache) Peek(b int64) (bool, int64)          { return s.sr.Peek(b) }
+func (s statsCache) Len() int                            { return s.c.Len() }
+func (s statsCache) Cap() int                            { return s.c.Cap() }
+func (s statsCache) Resize(n int)                        { s.c.Resize(n) }
+func (s statsCache) Drop(n int)                          { s.c.Drop(n) }
 
 // ---- the policy-level model ----
 
@@ -975,4 +975,3 @@ func c14Concurrent(r *core.Result, c core.Case) {
 	}
 	r.Sample = map[string]any{"config": cfg, "operations": len(ops), "overlapping_pairs": overlaps}
 }
-
